@@ -282,6 +282,47 @@ def run(cfg, cases, only=None, limit=None, seed=1):
     return stats, problems
 
 
+# ---------------------------------------------------------------- the attribute on something that is not a struct, enum or union
+NON_ADT = [
+    ('fn', '#[derive_where(Clone)] pub fn f() {}', 'pub const USE: fn() = f;'),
+    ('fn_generic', '#[derive_where(Clone; T)] pub fn g<T>(_: T) {}', 'pub const USE: fn(u8) = g::<u8>;'),
+    ('type_alias', '#[derive_where(Debug)] pub type A<T> = ::core::marker::PhantomData<T>;', 'pub type Use = A<u8>;'),
+    ('trait', '#[derive_where(Clone)] pub trait Tr {}', 'pub type Use = dyn Tr;'),
+    ('const', '#[derive_where(Clone)] pub const K: u8 = 3;', 'pub const USE: u8 = K;'),
+    ('static', '#[derive_where(Clone)] pub static ST: u8 = 3;', 'pub const USE: &u8 = &ST;'),
+    ('mod', '#[derive_where(Clone)] pub mod inner { pub struct X; }', 'pub type Use = inner::X;'),
+    ('impl', 'pub struct X; #[derive_where(Clone)] impl X { pub fn g() {} }', 'pub const USE: fn() = X::g;'),
+    ('use', '#[derive_where(Clone)] pub use ::core::marker::PhantomData as PD;', 'pub type Use = PD<u8>;'),
+    ('fn_with_options', '#[derive_where(skip_inner, incomparable)] pub fn h() {}', 'pub const USE: fn() = h;'),
+]
+
+
+def run_non_adt(cfg):
+    """`derive_where` on an item that is not a struct, enum or union: nothing to derive from.  The third exit of the attribute
+    entry point (syn cannot parse a DeriveInput) must report an ordinary error and still emit the item unchanged."""
+    mods = [(i, 'pub mod m%d {\n#[allow(unused_imports)] use derive_where::derive_where;\n%s\n%s\n}' % (i, item, use)) for i, (tag, item, use) in enumerate(NON_ADT)]
+    res, control, expanded = cached(cfg, mods)
+    stats = dict(cfg=cfg, items=len(mods), errors_seen=sum(len(v) for v in res.values()))
+    problems = []
+    if not control:
+        raise runner.Infra('non-ADT probe: the control module produced no resolution error, later uses cannot be judged')
+    for i, (tag, item, use) in enumerate(NON_ADT):
+        ds = res[i]
+        why = None
+        if not ds:
+            why = 'the real macro raised no error for an item it cannot derive anything from (not a struct, enum or union)'
+        elif any('panicked' in d['message'] for d in ds):
+            why = 'proc-macro panic'
+        elif any(d['on_use'] for d in ds):
+            why = 'a later use of the item does not resolve: the item was not re-emitted'
+        elif any(d['code'] for d in ds):
+            why = 'errors other than the macro\'s own diagnostics: ' + ', '.join(sorted({d['code'] for d in ds if d['code']}))
+        if why:
+            problems.append(dict(kind='diagnostics', cfg=cfg, case='non_adt/' + tag, src=item, stage='A', model_class='not a DeriveInput', why=why,
+                                 errors=[(d['code'], d['message'][:160]) for d in ds[:4]]))
+    return stats, problems
+
+
 # ---------------------------------------------------------------- S4: token soups below the meta-tree level (C16)
 VOCAB = ['Clone', 'Copy', 'Debug', 'Default', 'Eq', 'Hash', 'Ord', 'PartialEq', 'PartialOrd', 'Zeroize', 'ZeroizeOnDrop',
          'skip', 'skip_inner', 'incomparable', 'default', 'crate', 'fqs', 'EqHashOrd', 'T', 'U', 'x', 'Self', 'for', 'where', 'dyn', 'impl',
